@@ -340,6 +340,8 @@ type c01Case struct {
 	seedDst uint64
 
 	avoidB13 bool
+	// (C18) a lone surrogate escape sits in the twice-quoted literal of a `,string` field
+	loneInQuoted bool
 }
 
 func genC01Case(c *Ctx, i int) *c01Case { return genC01CaseR(c, c.Rng(i)) }
